@@ -251,6 +251,7 @@ def _run_job(pid, job, opts, res, ctl=None):
     vm.loop_bound = job.get('loop_bound', 400)
     vm.max_depth = job.get('max_depth', 60)
     vm.query_timeout_ms = job.get('query_timeout_ms', 10000)
+    vm.incremental_timeout_ms = job.get('incremental_timeout_ms', 1500)
     vm.solver.s.set('timeout', vm.query_timeout_ms)
     if 'bv_width' in job:
         vm.bv_width = job['bv_width']
